@@ -108,7 +108,7 @@ PROPS = {
         rule="exhaustive: every interval of the three kinds over a chain (i64, f64 with ±0/±inf, &str, u8) × every probe value "
              "(contains, RangeBounds::contains) and every ordered pair of intervals (intersects, includes, is_included_in); "
              "a case is one request line, distinct by sha1 of its input; all are non-trivial (no rejection path exists)"
-             " start_bound/end_bound themselves and membership computed from them the way a range consumer does.",
+             "; also: start_bound/end_bound themselves and membership computed from them the way a range consumer does.",
         trusted_base=INTERVAL_TB,
         assumptions=["element comparison of the Rust type is the total order of the theorem (i64, u8, &str; f64 without NaN)"],
     ),
@@ -129,7 +129,7 @@ PROPS = {
                    "bound (64*2^-53*max(1,z^2)) is applied to IEEE doubles, whose overflow/underflow behaviour the standard model omits.",
         rule="exhaustive over (n,k), 0<=k<=n+1, n<=90 (quick) / 400 (thorough) x 4-14 confidences, plus sampled n up to 2^30, front-end data sets, "
              "ratio form for every k/n; distinct by sha1 of the input; non-trivial = all (rejections are part of the documented domain)"
-             " Random histories of new/extend/extend_if/add_success/add_failure/+=/+/from_iter on one Stats (pseq); levels within an ulp of 1 and of 0 (infinite critical value -> [0,1]).",
+             "; also: Random histories of new/extend/extend_if/add_success/add_failure/+=/+/from_iter on one Stats (pseq); levels within an ulp of 1 and of 0 (infinite critical value -> [0,1]).",
         assumptions=["statrs Normal::inverse_cdf is the standard-normal quantile (validated under C06)"],
     ),
     "C03": dict(
@@ -147,7 +147,7 @@ PROPS = {
                    "the real-number rank theorems transfer to floats only up to 'one position' (checked by the oracle on every case).",
         rule="all n in 0..160 (quick) / 0..2000 (thorough) x q grid (every integer and half-integer q*n and both float neighbours) x 6 confidences; "
              "random n to 2e6; data-level cases for 4 element types; distinct by sha1 of the input"
-             " NaN at every position of otherwise ascending data (documented panic).",
+             "; also: NaN at every position of otherwise ascending data (documented panic).",
         assumptions=["elements are mutually comparable (NaN data is the documented panic, checked as such)"],
     ),
     "C17": dict(
@@ -163,7 +163,7 @@ PROPS = {
                    "levels below 1/2 (negative z) a larger population does not narrow the interval (the theorem needs z>0).",
         rule="all (n,k) with 2<=k<=n-2, n<=70 (quick) / 400 (thorough): mono (k,k+1), mirror, shrink (random m in 2..50), wider (random level pair); "
              "random n to 1e6; distinct by sha1 of the input"
-             " Level pairs below 1/2; level scans on a grid that is fine near 0 and near 1.",
+             "; also: Level pairs below 1/2; level scans on a grid that is fine near 0 and near 1.",
         assumptions=["statrs Normal::inverse_cdf is increasing in p (validated numerically by the 'wider' relation itself)"],
     ),
     "C13": dict(
@@ -180,7 +180,7 @@ PROPS = {
                    "bound but is not tight on the unbounded side (stated as a theorem).",
         rule="exhaustive: all intervals over i64 box [-4,4] (quick) / [-6,6] (thorough) and 7 dyadic f64 values x all scalars in [-4,4] resp. 7 floats "
              "(mul, div (k != 0), add, sub, neg) x all ordered pairs (A+B, A-B, relative_to); distinct by sha1 of the input"
-             " u8 intervals (add/sub, scalar and interval): the exact image or the overflow panic iff a bound of it is not representable.",
+             "; also: u8 intervals (add/sub, scalar and interval): the exact image or the overflow panic iff a bound of it is not representable.",
         trusted_base=INTERVAL_TB,
         assumptions=["element arithmetic is exact on the generated values (small integers, dyadic floats)"],
     ),
@@ -196,7 +196,7 @@ PROPS = {
         level_note="Trusted: Lean kernel + 3 standard axioms; NaN bounds are outside the property's quantifier; width overflow of machine integers is outside the model.",
         rule="exhaustive over all ordered pairs of a 6-9 element chain per element type: new, try_from((T,T)), try_from((Option,Option)), try_from(a..=b), from(a..), "
              "from(..=a), accessor table, option-pair round trip, clone, ==, tuple/extreme projections, width, recorded hash input; distinct by sha1 of the input"
-             " Pair conversion of all 12 integer instantiations; every interval against its copy under ==, partial_cmp, <=, >=, <, >.",
+             "; also: Pair conversion of all 12 integer instantiations; every interval against its copy under ==, partial_cmp, <=, >=, <, >.",
         trusted_base=INTERVAL_TB,
     ),
     "C15": dict(
@@ -224,7 +224,7 @@ PROPS = {
                    "compared bit-for-bit through the interval-level results.",
         rule="all ordered pairs of float intervals over an 8-element chain x 3 (quick) / 12 (thorough) tolerance triples drawn from the actual differences; "
              "display of every interval over three element types; distinct by sha1 of the input"
-             " Display of huge / tiny / 17-digit floats and of long strings (renderings far beyond 64 bytes).",
+             "; also: Display of huge / tiny / 17-digit floats and of long strings (renderings far beyond 64 bytes).",
     ),
     "C08": dict(
         modules=["StatsCI.Properties.C08"],
@@ -243,7 +243,7 @@ PROPS = {
         rule="random stack programs over 1-8 chunks (append / extend / += / + / clone / interleaved queries), every merge-tree shape over 2-5 (quick) / 6 chunks, "
              "five generators (constant, same-sign, mixed magnitudes, cancelling, head+increments) for f32 and f64, streams of 5e4 and 1e6 (1e7 thorough) elements; "
              "distinct by sha1 of the program"
-             " One register fed alternately by value and by one-element register (up to 10^6 steps); one-sign streams, negative and positive; == of registers and From<T>.",
+             "; also: One register fed alternately by value and by one-element register (up to 10^6 steps); one-sign streams, negative and positive; == of registers and From<T>.",
         assumptions=["no overflow/underflow in the generated streams"],
     ),
     "C01": dict(
@@ -263,7 +263,7 @@ PROPS = {
         rule="random samples: all n in 2..9, 60 (quick) / 400 (thorough) sizes in 10..300, sizes to 5000, both sides of the t->z switch (99 999..100 003), "
              "long samples (150 000 quick; 10^6 thorough); 7 generator styles; f32 and f64; random and grid levels in [0.001, 0.9999]; three kinds; "
              "distinct by sha1 of the input; all non-trivial (n >= 2, non-constant)"
-             " 7 call styles (incl. chunked from_iter+extend and two partial states merged with +); zero-sum and zero-containing samples; magnitudes where (sum x)^2 overflows but sum x^2 does not.",
+             "; also: 7 call styles (incl. chunked from_iter+extend and two partial states merged with +); zero-sum and zero-containing samples; magnitudes where (sum x)^2 overflows but sum x^2 does not.",
         trusted_base=["rounding: IEEE arithmetic is interpreted as reals with an abstract rounding function; overflow/underflow/NaN propagation are outside these theorems (covered by execution and by C11)"],
         assumptions=["statrs StudentsT/Normal inverse_cdf are the true quantiles (validated under C06)"],
     ),
@@ -281,7 +281,7 @@ PROPS = {
                    "dof -2 (panic); IEEE gives NaN dof and the z branch - this difference between the RR interpretation and IEEE is stated as a theorem and "
                    "covered by execution.",
         rule="100 (quick) / 600 (thorough) random paired cases (every 5th with unequal lengths) and as many unpaired cases; f32 and f64; distinct by sha1 of the input"
-             " Samples with more than 100 000 observations in total and a tiny effective dof; mismatched extend on a populated Paired (3 ways of populating it); balanced samples (maximal effective dof).",
+             "; also: Samples with more than 100 000 observations in total and a tiny effective dof; mismatched extend on a populated Paired (3 ways of populating it); balanced samples (maximal effective dof).",
         trusted_base=["rounding: IEEE arithmetic is interpreted as reals with an abstract rounding function; overflow/underflow/NaN propagation are outside these theorems (covered by execution and by C11)"],
     ),
     "C05": dict(
@@ -316,7 +316,7 @@ PROPS = {
                    "register is right-neutral only up to 2|c| + O(u)|s| when the compensation is non-zero (theorem neutral_rounded).",
         rule="80 (quick) / 600 (thorough) random programs of up to 40-200 operations for each of 7 state types, f32 and f64, queries interleaved and repeated; "
              "12/60 parallel reductions; distinct by sha1 of the program"
-             " Chunks of 1024..5000 observations through extend/from_iter; Unpaired fed through stats_a_mut/stats_b_mut as well as append_a/append_b.",
+             "; also: Chunks of 1024..5000 observations through extend/from_iter; Unpaired fed through stats_a_mut/stats_b_mut as well as append_a/append_b.",
         trusted_base=["rounding: IEEE arithmetic is interpreted as reals with an abstract rounding function; overflow/underflow/NaN propagation are outside these theorems (covered by execution and by C11)"],
     ),
     "C18": dict(
@@ -332,7 +332,7 @@ PROPS = {
                    "so an invalid level can be written as a literal; every constructor function and conversion is checked.",
         rule="~60 boundary levels + 200 (quick) / 2000 (thorough) random levels x {new, new_two_sided, new_upper, new_lower, TryFrom<f64>, TryFrom<f32>}, accessor table of "
              "24+ confidences, all ordered pairs for partial_cmp and the five operators; non-trivial = all; distinct by sha1 of the input"
-             " Levels that differ far below an ulp of 1/2, and by 1-2 ulps next to 1 and inside [1/2,1).",
+             "; also: Levels that differ far below an ulp of 1/2, and by 1-2 ulps next to 1 and inside [1/2,1).",
     ),
     "C12": dict(
         modules=["StatsCI.Properties.C12"],
@@ -369,7 +369,7 @@ PROPS = {
         rule="12 confidences x {n in 0..1} x 8 entry points, constant data (5 values x 4 sizes), NaN/+inf/-inf at each of 6 positions x 7 entry points, "
              "huge/tiny magnitudes, non-positive data, 5 length mismatches, 11 (n,k) edge pairs, 6 invalid quantiles x 5 entry points, n in 0..3 for quantiles, "
              "plus random extreme-range valid inputs; non-trivial = all (each line is an invalid or degenerate input class); distinct by sha1 of the input"
-             " NaN inside ascending data for the quantile entry points.",
+             "; also: NaN inside ascending data for the quantile entry points.",
     ),
     "C16": dict(
         modules=["StatsCI.Properties.C16"],
@@ -387,7 +387,7 @@ PROPS = {
                    "|c1-c2|/|c| of the half-width).",
         rule="60 (quick) / 400 (thorough) data sets per producer {arith, paired, unpaired, geo, harm} x {f32, f64} x {scale 2^e, negate, shift, reorder} + all 120 "
              "permutations of a 5-element sample every 20th round; distinct by sha1 of the input"
-             " Shifts that make the sum exactly zero, exactly cancelling paired differences, geometric data balanced around 1; scaling into the window where only the squares still fit.",
+             "; also: Shifts that make the sum exactly zero, exactly cancelling paired differences, geometric data balanced around 1; scaling into the window where only the squares still fit.",
     ),
     "C06": dict(
         modules=["StatsCI.Properties.C06"],
@@ -408,7 +408,7 @@ PROPS = {
         rule="tcrit: every n in 2..400 (quick) / 2..2002 (thorough) + 11-20 larger n through the switch, levels from a 400-point grid, kinds rotating; hook: "
              "2500 / 20000 (dof, level, kind) triples over integer dof 1..300, real dof, dof around 1e5; zprop: 500 / 4000 (n,k); ucrit: 250 / 2000 sample pairs; "
              "distinct by sha1 of the input"
-             " More than 100 000 observations in total with a small effective dof; the statrs quantile pocket as a corpus case (known finding).",
+             "; also: More than 100 000 observations in total with a small effective dof; the statrs quantile pocket as a corpus case (known finding).",
         assumptions=["the reference CDFs are accurate to 1e-12 (checked against closed forms on every build of the driver's self-check; against scipy in development)"],
     ),
     "C20": dict(
@@ -428,7 +428,7 @@ PROPS = {
                    "and checked only through the trees serde_json produces. Trusted: Lean kernel + 3 standard axioms; serde / serde_json / toml.",
         rule="5 feature-set builds; 40 (quick) / 300 (thorough) rounds x 9 state types (f32/f64) reached by random programs of up to 30-150 operations + a "
              "Confidence and an Interval per round; distinct by sha1 of the program"
-             " Constant samples of non-dyadic values (n in 1..11); states standing for 2^31..2^33 observations reached by doubling.",
+             "; also: Constant samples of non-dyadic values (n in 1..11); states standing for 2^31..2^33 observations reached by doubling.",
     ),
     "C10": dict(
         modules=["StatsCI.Properties.C10"],
@@ -447,6 +447,6 @@ PROPS = {
                    "1-(1-(2L-1))/2 (tolerance scaled with the conditioning of the inverse CDF; rank bounds may differ by one position).",
         rule="25 (quick) / 120 (thorough) data sets per producer x 4 / 12 level pairs of each of two shapes (one-sided L vs two-sided 2L-1; same kind L1 < L2 in "
              "[0.001, 0.9999]) x f64 (all producers) and f32 (mean-type producers); distinct by sha1 of the input"
-             " Proportion producers with 10..14 successes/failures at levels 0.99..0.99995; the five mean producers with 100 003 observations.",
+             "; also: Proportion producers with 10..14 successes/failures at levels 0.99..0.99995; the five mean producers with 100 003 observations.",
     ),
 }
